@@ -334,9 +334,21 @@ class StdioClient:
                             # Pydantic model - use direct model_dump_json (FAST: single pass)
                             # (by_alias: a typed object inside the message - a typed result,
                             # say - goes out under its wire names, "_meta" not "meta")
-                            json_str = model_dump_json_method(
-                                exclude_none=True, by_alias=True
-                            )
+                            try:
+                                json_str = model_dump_json_method(
+                                    exclude_none=True, by_alias=True
+                                )
+                            except ValueError:
+                                # The model layer's own JSON writer gives up on
+                                # payloads nested deeper than 255 levels, which
+                                # are ordinary JSON (the same message as a plain
+                                # dict goes out): take the two-pass route then
+                                model_dump_method = getattr(message, "model_dump", None)
+                                if model_dump_method is None:
+                                    raise
+                                json_str = json.dumps(
+                                    model_dump_method(exclude_none=True, by_alias=True)
+                                )
                         else:
                             model_dump_method = getattr(message, "model_dump", None)
                             if model_dump_method is not None:
